@@ -32,10 +32,13 @@ if [ -f "$SEED/demo_test.go" ] && [ "${SKIPDEMO:-}" = "" ]; then
     DN=$(head -30 "$SEED/demo_test.go" | grep -oE "$D/[A-Za-z0-9_.]+_test\.go" | head -1 | xargs -r basename)
     [ -z "$DN" ] && DN=zz_seed_demo_test.go
     cp "$SEED/demo_test.go" "$W/$D/$DN"
-    WITH=$(cd "$W" && timeout 600 go test -vet=off -count=1 ./$D 2>&1 | tail -5)
+    # and the -run pattern it asks for (a demonstration that re-creates package state may disturb the package's own tests)
+    RUNPAT=$(head -40 "$SEED/demo_test.go" | grep -oE -- "-run[ =]+'?\"?[A-Za-z0-9_|^$/().*]+" | head -1 | sed -E "s/-run[ =]+['\"]?//")
+    RUNARG=""; [ -n "$RUNPAT" ] && RUNARG="-run $RUNPAT"
+    WITH=$(cd "$W" && timeout 600 go test -vet=off -count=1 $RUNARG ./$D 2>&1 | tail -5)
     if echo "$WITH" | grep -q '^ok'; then DEMO="demo-passes-with-change(!)"; else DEMO="demo-fails-with-change"; fi
     (cd "$W" && git apply -R "$SEED/patch.diff" 2>/dev/null || patch -p1 -R --fuzz=3 -s < "$SEED/patch.diff")
-    WITHOUT=$(cd "$W" && timeout 600 go test -vet=off -count=1 ./$D 2>&1 | tail -5)
+    WITHOUT=$(cd "$W" && timeout 600 go test -vet=off -count=1 $RUNARG ./$D 2>&1 | tail -5)
     if echo "$WITHOUT" | grep -q '^ok'; then DEMO="$DEMO,demo-passes-without"; else DEMO="$DEMO,demo-fails-without(!)"; echo "$WITHOUT"; fi
     rm -f "$W/$D/$DN"
     (cd "$W" && git checkout -q -- . && git clean -fdq && (git apply "$SEED/patch.diff" 2>/dev/null || patch -p1 --fuzz=3 -s < "$SEED/patch.diff"))
